@@ -37,9 +37,11 @@ pub async fn insert_and_maybe_flush(
         context_id = event.context_id,
         "Inserting event into MemTable"
     );
+    #[cfg(sneldb_verif)]
+    let verif_eid = event.event_id().raw();
     ctx.memtable.insert(event)?;
     #[cfg(sneldb_verif)]
-    crate::verif::step("store.mem_inserted", &format!("\"shard\":{},\"len\":{}", ctx.id, ctx.memtable.len()));
+    crate::verif::step("store.mem_inserted", &format!("\"shard\":{},\"len\":{},\"eid\":\"{}\"", ctx.id, ctx.memtable.len(), verif_eid));
 
     // 3. If MemTable is full, flush and rotate
     if ctx.memtable.is_full() {
@@ -52,6 +54,8 @@ pub async fn insert_and_maybe_flush(
 
         let capacity = ctx.memtable.capacity();
 
+        #[cfg(sneldb_verif)]
+        let verif_eids: Vec<String> = ctx.memtable.iter().map(|e| format!("\"{}\"", e.event_id().raw())).collect();
         let passive_arc = ctx.passive_buffers.add_from(&ctx.memtable).await;
         let flushed_mem = std::mem::replace(&mut ctx.memtable, MemTable::new(capacity));
 
@@ -74,7 +78,7 @@ pub async fn insert_and_maybe_flush(
             )
             .await?;
         #[cfg(sneldb_verif)]
-        crate::verif::step("store.rotated", &format!("\"shard\":{},\"seg\":{current_segment_id}", ctx.id));
+        crate::verif::step("store.rotated", &format!("\"shard\":{},\"seg\":{current_segment_id},\"eids\":[{}]", ctx.id, verif_eids.join(",")));
 
         // Opportunistic pruning: every max_inflight/2 rotations
         let prune_every = std::cmp::max(1, ctx.passive_buffers.max_inflight() / 2);
